@@ -104,6 +104,20 @@ Subst == \E i \in Pick1(All) : \E j \in Pick1({k \in All : pool[k] = W}) :
          /\ "subst" \in Ops /\ Uses({i, j})
          /\ Push(pool[i], [act |-> "subst", i |-> i, j |-> j])
 
+(* declare a handle signed / unsigned (exp.signed(), exp.unsigned(): the same object is returned) *)
+SetSf == \E i \in Pick1((NLeaves + 1)..N), sf \in {0, 1} :
+         /\ "setsf" \in Ops /\ Uses({i})
+         /\ Push(pool[i], [act |-> "setsf", i |-> i, sf |-> sf])
+
+(* one mapper M lives through the behaviour; r is a register of 2W bits.
+   mset: M[r[pos:pos+n]] = handle j (partial register write), the new handle is M(r[pos:pos+n]);
+   mget: the new handle is M(r), the whole register as the map now sees it *)
+MSet == \E pos \in Pick1(0..(2 * W - 1)) : \E j \in Pick1({k \in All : pos + pool[k] <= 2 * W}) :
+         /\ "mset" \in Ops /\ Uses({j})
+         /\ Push(pool[j], [act |-> "mset", j |-> j, pos |-> pos, n |-> pool[j]])
+MGet == /\ "mget" \in Ops /\ 2 * W <= MaxW /\ (IF Steps = 0 THEN TRUE ELSE h[Steps].act # "mget")
+        /\ Push(2 * W, [act |-> "mget"])
+
 (* a complete behaviour is printed exactly once, by its own (single) successor step: in simulation
    mode TLC evaluates constraints on every candidate successor, an action prints only for the one taken *)
 Done == /\ Steps = MaxSteps /\ ~emitted
@@ -111,7 +125,7 @@ Done == /\ Steps = MaxSteps /\ ~emitted
         /\ emitted' = TRUE /\ UNCHANGED <<W, pool, h>>
 
 Next == \/ /\ Steps < MaxSteps
-           /\ (Bin \/ Un \/ Slice \/ Compose \/ Cond \/ Ext \/ Simp \/ Pick \/ MapW \/ Subst)
+           /\ (Bin \/ Un \/ Slice \/ Compose \/ Cond \/ Ext \/ Simp \/ Pick \/ MapW \/ Subst \/ SetSf \/ MSet \/ MGet)
         \/ Done
 
 Spec == Init /\ [][Next]_vars
